@@ -239,6 +239,16 @@ func (r *NetconfResponse) record1dot1Chunks() error {
 			)
 		}
 
+		if chunkSizeStr[0] < byte('0') || chunkSizeStr[0] > byte('9') {
+			// strconv would happily accept a sign
+			return errNetconf1Dot1ParseError(
+				fmt.Sprintf(
+					"unable to parse netconf response: chunk size '%s' is not a number",
+					chunkSizeStr,
+				),
+			)
+		}
+
 		chunkSize, err := strconv.Atoi(chunkSizeStr)
 		if err != nil {
 			return errNetconf1Dot1ParseError(
